@@ -97,6 +97,13 @@ def _dataclass_parameters(class_: Class) -> list[Parameter]:
             ):
                 continue
 
+            # A bare `ClassVar` annotation (not subscripted, so not unwrapped by the visitor) is a class variable too.
+            if isinstance(member.annotation, Expr) and member.annotation.canonical_path in {
+                "typing.ClassVar",
+                "typing_extensions.ClassVar",
+            }:
+                continue
+
             # Start of keyword-only parameters.
             if isinstance(member.annotation, Expr) and member.annotation.canonical_path == "dataclasses.KW_ONLY":
                 kw_only = True
